@@ -276,8 +276,8 @@ func (w *world) soloOp(t, i int) (res string, steps uint64) {
 				e = buildExpr(&w.sc.Shared[op.Shared]) // a fresh, unshared copy
 				shared = true
 			} else if op.Priv != nil {
-				e = buildExpr(op.Priv) // part of the operation, as in the simulated run
-				shared = true          // immutability is checked for private subjects too
+				e = buildExpr(op.Priv)         // part of the operation, as in the simulated run
+				shared = op.Kind != KEditPrint // immutability is checked for private subjects too (editprint edits its own tree on purpose)
 			}
 			zsimrt.CountPause(true)
 			if shared && e != nil {
@@ -615,6 +615,12 @@ func runScenario(sc *Scenario, r *zsimrt.Rand, replay []zsimrt.Decision) *Outcom
 				out.Probes["solo_step_cap"]++
 				continue // the call does not finish within the solo step cap: no sequential result to compare with
 			}
+			if strings.HasPrefix(got, "editprint:STALE") {
+				keep(&Violation{Oracle: "O5", Task: t, Op: i, Kind: op.Kind,
+					What: "after a legal edit of a private tree, printing/rendering it differs from printing/rendering a fresh structural clone: the library remembered something about the tree from before the edit",
+					Got:  got})
+				continue
+			}
 			if got != refA[f] {
 				keep(&Violation{Oracle: "O1", Task: t, Op: i, Kind: op.Kind,
 					What: "result under the simulated schedule differs from the same call run alone",
@@ -623,6 +629,12 @@ func runScenario(sc *Scenario, r *zsimrt.Rand, replay []zsimrt.Decision) *Outcom
 		}
 	}
 	for f := 0; f < total; f++ {
+		if strings.HasPrefix(refA[f], "editprint:STALE") {
+			t, i := taskOf[f], opOf[f]
+			keep(&Violation{Oracle: "O5", Task: t, Op: i, Kind: sc.Tasks[t][i].Kind,
+				What: "after a legal edit of a private tree, printing/rendering it (alone, no concurrency) differs from printing/rendering a fresh structural clone",
+				Got:  refA[f]})
+		}
 		if strings.HasPrefix(refA[f], "abort:") || strings.HasPrefix(refB[f], "abort:") {
 			continue // one of the solo runs did not finish within the solo step cap: nothing to compare
 		}
